@@ -145,6 +145,14 @@ def add_explicit_array_dimensions(routine):
             array_map[array] = array.clone(dimensions=new_dimensions)
     routine.body = SubstituteExpressions(array_map).visit(routine.body)
 
+    # The associate-name of an ASSOCIATE statement is a bare name and must not carry a subscript
+    for assoc in FindNodes(ir.Associate).visit(routine.body):
+        if any(getattr(name, 'dimensions', None) for _, name in assoc.associations):
+            assoc._update(associations=tuple(
+                (expr, name.clone(dimensions=None) if getattr(name, 'dimensions', None) else name)
+                for expr, name in assoc.associations
+            ))
+
 
 def resolve_vector_notation(routine, resolve_implicit_rhs_ranges=True,
                             substitute_derived_type_bounds=False,
